@@ -235,6 +235,19 @@ def expToVar (viaEmplace : Bool) : EOp α → Op α
   | .ctor k j mv => .ctor k j mv
   | .swap k j => .swap k j
 
+/-- [expected.object.obs] value_or, [expected.object.monadic] and_then / or_else on value-or-error -/
+def E.valueOr (d : α) : E α → α
+  | .val x => x
+  | .err _ => d
+
+def E.andThen {ρ : Type} (f : α → ρ) (onErr : α → ρ) : E α → ρ
+  | .val x => f x
+  | .err e => onErr e
+
+def E.orElse {ρ : Type} (onVal : α → ρ) (f : α → ρ) : E α → ρ
+  | .val x => onVal x
+  | .err e => f e
+
 /-! ### converting constructor -/
 
 def viable (c : Option Cand) : Option Nat :=
